@@ -59,14 +59,24 @@ class PolicyEnv(Env):
             raise
 
     def on_metric(self, event, attempt, sleep_s, tags) -> None:
+        handed = tags
         if "state" in tags:
             tags = dict(tags, state=STATE.get(tags["state"], tags["state"]))
-        super().on_metric(event, attempt, sleep_s, tags)
+        try:
+            super().on_metric(event, attempt, sleep_s, tags)
+        finally:
+            if self.flavours and isinstance(handed, dict):
+                handed.clear()            # a hook may do what it likes with the mapping it is handed
 
     def on_log(self, event, fields) -> None:
+        handed = fields
         if "state" in fields:
             fields = dict(fields, state=STATE.get(fields["state"], fields["state"]))
-        super().on_log(event, fields)
+        try:
+            super().on_log(event, fields)
+        finally:
+            if self.flavours and isinstance(handed, dict):
+                handed.clear()
 
     # ---- views
     def view_of_exception(self, exc: BaseException) -> dict:
